@@ -348,7 +348,7 @@ fn main() {
     run.rule("(a) malicious client from public parts: programmed data beta in {0,1,2,-1,3} at one level (others honest), authenticator in {k*beta, k, 0, k+1}, correlated randomness honest for the cheating value or perturbed (A or B at one level), x inputs x every aggregation parameter (bits<=3; on-path/sibling sets beyond) x key tapes; (d) two non-zero candidates adding up to one (control-bit correction flipped at level 0/1, data correction word of level 7 solved from black-box evaluations, correlated randomness for the summed authenticators), placed 1..128 positions apart in the candidate list; (b) honest reports: every byte of public share, both input shares, both rounds of verifier shares and verifier messages x alteration alphabet; oracle: both finish => outputs sum to zero-vector or one-hot 1; cheating strategies rejected whenever an on-path candidate is queried. distinct = (strategy, bits, input, parameter, tape) and distinct alterations; non-trivial = reached verify_init at both aggregators");
     run.assume("soundness over the verification key is a fixed alphabet of keys (a cheating report passing by chance has probability <= 2/2^64 per key at inner levels)");
     let q = run.quick();
-    let tapes: Vec<(String, Tape)> = tape_alphabet(run.seed, if q { 2 } else { 8 }).into_iter().skip(2).collect();
+    let tapes: Vec<(String, Tape)> = tape_alphabet(run.seed, if q { 4 } else { 8 }).into_iter().skip(2).collect();
     let by_stage: Mutex<BTreeMap<String, u64>> = Mutex::new(BTreeMap::new());
     let tally = |s: &str| *by_stage.lock().unwrap().entry(s.to_string()).or_insert(0) += 1;
 
@@ -516,9 +516,6 @@ fn main() {
 
     // ---------------- (b) tampering after honest sharding
     for (bits, level) in [(2usize, 0usize), (2, 1), (3, 1), (3, 2), (8, 4), (8, 7)] {
-        if q && bits == 8 && level == 4 {
-            continue;
-        }
         let vdaf = Pop::new(bits);
         let (tn, tape) = &tapes[0];
         let input = bits_of(0b10110101 >> (8 - bits), bits);
